@@ -52,7 +52,7 @@ Without(q, f) == SelectSeq(q, LAMBDA x : x # f)
 (***************************************************************************)
 Work(guided, guide) ==
   [disk |-> disk, rec |-> rec, queue |-> queue, active |-> active,
-   del |-> <<>>, guided |-> guided, guide |-> guide]
+   del |-> <<>>, guided |-> guided, guide |-> guide, eff |-> FALSE]   \* eff: some report in this call named a file that exists
 
 Exceeded(w, g) ==
   LET q == w.queue[g] IN
@@ -79,7 +79,7 @@ Exp(w) == IF \A g \in Groups : ~Exceeded(w, g) THEN {w}
 AddOne(w, f, sz) ==
   IF ~IsData(f) \/ sz = 0 THEN {w}
   ELSE LET tracked == w.rec[f] # None
-           w1 == [w EXCEPT !.rec[f] = RecSize(sz),
+           w1 == [w EXCEPT !.rec[f] = RecSize(sz), !.eff = TRUE,
                            !.queue[Grp(f)] = IF tracked THEN @ ELSE Insert(@, f),
                            !.active = IF HasSize THEN @ + sz - (IF tracked THEN w.rec[f] ELSE 0) ELSE 0]
        IN  Exp(w1)
@@ -123,10 +123,10 @@ Done(w) == w.guided => w.guide = <<>>
 Commit(w, a) ==
   /\ Done(w)
   /\ disk' = w.disk /\ rec' = w.rec /\ queue' = w.queue /\ active' = w.active
-  /\ last' = [a EXCEPT !.del = w.del]
+  /\ last' = [a EXCEPT !.del = w.del, !.eff = w.eff]
   /\ UNCHANGED cfg
 
-Act(name, f, g, S) == [a |-> name, f |-> f, g |-> g, S |-> S, del |-> <<>>]
+Act(name, f, g, S) == [a |-> name, f |-> f, g |-> g, S |-> S, del |-> <<>>, eff |-> FALSE]
 
 (***************************************************************************)
 (* Environment: what happens to the files themselves.                      *)
@@ -184,7 +184,8 @@ Rescan(ord, G) ==
 CVerify(G) ==
   LET gone == Tracked \ OnDisk
       both == Tracked \cap OnDisk
-  IN UNION {UNION {UNION {ModSeq({w2}, BatchOrder(both, disk), disk)
+  \* the three phases are separate calls: the refresh phase stats the files after the add phase has run
+  IN UNION {UNION {UNION {ModSeq({w2}, BatchOrder(both, w2.disk), w2.disk)
                           : w2 \in AddSeq({w1}, BatchOrder(addset, disk), disk)}
                    : w1 \in RemSeq({Work(G.on, G.d)}, SetToSeq(gone))}
             : addset \in {OnDisk \ Tracked, OnDisk}}
@@ -222,14 +223,16 @@ DeletesOnlyTracked ==
 OldestFirst ==
   [][\A i \in 1..Len(last'.del) :
        LET d == last'.del[i] IN
-       \A f \in Files : (Grp(f) = Grp(d) /\ Key(f) < Key(d) /\ rec[f] # None) => rec'[f] = None]_vars
+       \A f \in Files : (Grp(f) = Grp(d) /\ Key(f) < Key(d) /\ rec[f] # None) =>
+                            (rec'[f] = None \/ f \in ToSet(last'.del))]_vars   \* (a batch may re-report a file it expired)
 
 LimitsHold ==
   /\ \A g \in Groups : /\ cfg.count # None => Len(queue[g]) <= cfg.count
                        /\ cfg.dur # None => Dur(queue[g]) <= cfg.dur
 LimitsAfterAdd ==
   /\ LimitsHold
-  /\ (last.a \in AddActs /\ HasSize) => active <= cfg.size
+  \* (Verify ends with a refresh of the sizes of files already tracked, which - like any `modified` report - does not expire)
+  /\ (last.a \in (AddActs \ {"Verify"}) /\ last.eff /\ HasSize) => active <= cfg.size
 
 \* deletions happen only in steps that report or re-scan files (never on a bare delete / remove)
 DeleteOnlyOnAdd == [][last'.del # <<>> => last'.a \in (AddActs \cup {"EvModified", "ModifyBatch"})]_vars
